@@ -25,3 +25,13 @@ def bit (n : Nat) : Bool := n != 0
 def isDecor (t : String) : Bool :=
   (t.startsWith "sd" || t.startsWith "cd") && t.length > 2 && (t.drop 2).all Char.isDigit
 def stripDecor (ws : List String) : List String := ws.filter (!isDecor ·)
+/-- "a,b,c" -> entity addresses -/
+def parseEnts (s : String) : List (List Nat) := (s.splitOn ",").map parseEnt
+/-- a discovery notification that announces entities as removed: the device information entity [0] is kept, every other
+    listed entity goes with the full cascade (HEAD of /repo) -/
+def dropEntities (c : Cfg) (s : St) (p : Nat) (ents : List (List Nat)) : St :=
+  ents.foldl (fun s e => if e = [0] then s else dropEntity c s p e) s
+/-- an entity announced as added again: its features are known again -/
+def addEntity (s : St) (p : Nat) (ent : List Nat) : St :=
+  if ((s.rem p).map (·.ent)).contains ent then s
+  else { s with rem := fun q => if q = p then s.rem p ++ remoteFeats.filter (·.ent = ent) else s.rem q }
